@@ -489,8 +489,13 @@ func superviseShard(id string, cfg propCfg, v variant, bin, tier string, seed ui
 			res.inconclusive = append(res.inconclusive, fmt.Sprintf("variant=%s shard=%d: worker died outside any case: %v: %s", v.Name, shard, werr, oneLine(tailFile(errFile, 600), 600)))
 			return res
 		default:
-			site := fatalSite(tail)
-			k := "fatal:" + site + ":" + key
+			site := fatalSite(headFile(errFile, 20000))
+			k := "fatal:" + site
+			if fr := fatalFrame(headFile(errFile, 20000)); fr != "" {
+				k += ":" + fr
+			} else {
+				k += ":" + key
+			}
 			res.viols = append(res.viols, viol{Key: k, What: fmt.Sprintf("worker process died (%v) in case idx %d (%s): %s", werr, idx, key, firstLines(headFile(errFile, 800), 3)),
 				Idx: idx, Shard: shard, Variant: v.Name, Witness: map[string]any{"stderr_head": headFile(errFile, 3000), "stderr_tail": tail}})
 			res.nviol[k]++
@@ -775,6 +780,34 @@ func firstLines(s string, n int) string {
 		lines = lines[:n]
 	}
 	return strings.Join(lines, " | ")
+}
+
+// fatalFrame returns the innermost SDK function of the first goroutine in a crash dump
+// (the panicking one), or "" if there is none.
+func fatalFrame(dump string) string {
+	i := strings.Index(dump, "\ngoroutine ")
+	if i < 0 {
+		return ""
+	}
+	block := dump[i+1:]
+	if j := strings.Index(block, "\n\n"); j > 0 {
+		block = block[:j]
+	}
+	for _, ln := range strings.Split(block, "\n") {
+		if strings.HasPrefix(ln, "go.flow.arcalot.io/pluginsdk/") {
+			f := strings.TrimPrefix(ln, "go.flow.arcalot.io/pluginsdk/")
+			if k := strings.LastIndexByte(f, '('); k > 0 {
+				f = f[:k]
+			}
+			if a := strings.Index(f, "["); a >= 0 {
+				if b := strings.LastIndex(f, "]"); b > a {
+					f = f[:a] + f[b+1:]
+				}
+			}
+			return f
+		}
+	}
+	return ""
 }
 
 // fatalSite classifies a fatal crash from the head of the goroutine dump.
